@@ -46,6 +46,9 @@ type Scenario struct {
 	// Configs: which initial priority configurations to enumerate
 	// (default both: child-below and child-above).
 	OnlyChildBelow bool
+	// SwitchMode explores with single context switches (cost 1 to run any other
+	// enabled thread for the next step, no persistent demotion) instead of delays.
+	SwitchMode bool
 }
 
 // Replay is the replay artefact of a finding.
@@ -88,7 +91,7 @@ func (e *Explorer) run(sc *Scenario, childAbove bool, prefix []int, trace bool) 
 	main, check := sc.New()
 	done := make(chan *vsched.Outcome, 1)
 	go func() {
-		done <- vsched.Run(vsched.Config{ChildAbove: childAbove, Prefix: prefix, MaxSteps: sc.MaxSteps, Trace: trace}, main)
+		done <- vsched.Run(vsched.Config{ChildAbove: childAbove, Prefix: prefix, MaxSteps: sc.MaxSteps, Trace: trace, SwitchMode: sc.SwitchMode}, main)
 	}()
 	var o *vsched.Outcome
 	select {
